@@ -38,7 +38,7 @@ def walk_tree(root):
     return out
 
 
-def run_tool(lha, args, archive, rundir, pre=None, stdin=b"", mode="extract", extra_reset=None, timeout=120, wdir=None):
+def run_tool(lha, args, archive, rundir, pre=None, stdin=b"", mode="extract", extra_reset=None, timeout=120, wdir=None, filters=()):
     """runs `lha <args> archive` in rundir/root under strace as an unprivileged user.
     pre: list of (relative path, kind, content/target, mode) created beforehand inside root.
     Returns (events, completed process, root path)."""
@@ -72,7 +72,7 @@ def run_tool(lha, args, archive, rundir, pre=None, stdin=b"", mode="extract", ex
     cmd = ["strace", "-f", "-s", "4096", "-o", st, "-e", "trace=%file,fchmod,fchown,write,utime,utimes"]
     if amroot:
         cmd += ["setpriv", "--reuid=%d" % UNPRIV, "--regid=%d" % UNPRIV, "--clear-groups"]
-    cmd += [lha] + args + [archive]
+    cmd += [lha] + args + [archive] + [bytes(f) for f in filters]
     env = V.run_env()
     p = subprocess.run(cmd, capture_output=True, cwd=root, env=env, input=stdin, timeout=timeout)
     ev = [{"e": "Reset", "cwd": loc_of(root), "root": loc_of(os.path.join(root, wdir) if wdir else root), "pre": pre_ev, "mode": mode, "case": os.path.basename(rundir)}]
